@@ -170,6 +170,11 @@ func (r *Run) global(g *ssa.Global) *Obj {
 	r.globals[g] = o
 	// globals of packages whose init is not executed: materialise error values lazily
 	if g.Pkg != nil && !r.P.initAllow[g.Pkg.Pkg.Path()] {
+		if gs := g.String(); gs == "os.Stdout" || gs == "os.Stderr" || gs == "os.Stdin" {
+			fo := r.newObj(sizeof(r.P.osFileT), gs)
+			fo.Ext = &OFD{std: true, path: gs, fd: map[string]int{"os.Stdin": 0, "os.Stdout": 1, "os.Stderr": 2}[gs]}
+			r.store(o, 0, t, Ptr{O: fo})
+		}
 		if types.Identical(t, errorType) && r.P.errStrT != nil {
 			eo := r.newObj(sizeof(r.P.errStrT), "lazy-error:"+g.String())
 			r.store(eo, 0, types.Typ[types.String], Str{S: g.String()})
